@@ -389,7 +389,15 @@ def replay_dtype_scaled_case(case):
     bundle = {"case": c, "expect_dtype": exp["dtype"], "variant": variant, "seed": seed, "hex": e.data.hex()}
     n = 0
     for mode in ("eager", "lazy"):
-        f = TdmsFile.read(io.BytesIO(e.data)) if mode == "eager" else TdmsFile.open(io.BytesIO(e.data))
+        try:
+            f = TdmsFile.read(io.BytesIO(e.data)) if mode == "eager" else TdmsFile.open(io.BytesIO(e.data))
+        except Exception as ex:  # noqa
+            n += 1
+            fails.append(({"kind": "dtype", "op": "open", "mode": mode, "raw": c["raw"], "scale_kinds": kinds,
+                           "zero_length": False, "big_endian_segment": False, "type_kind": "numeric",
+                           "raw_timestamps": False, "exception": type(ex).__name__},
+                          dict(bundle, exception="%s: %s" % (type(ex).__name__, ex))))
+            continue
         for nm in (("c",) if daq else ("c", "z")):
             ch = f["grp"][nm]
 
@@ -436,7 +444,16 @@ def replay_dtype_plain_case(case):
     from .parser import components
     for rawts in (False, True):
         for mode in ("eager", "lazy"):
-            f = (TdmsFile.read if mode == "eager" else TdmsFile.open)(io.BytesIO(e.data), raw_timestamps=rawts)
+            try:
+                f = (TdmsFile.read if mode == "eager" else TdmsFile.open)(io.BytesIO(e.data), raw_timestamps=rawts)
+            except Exception as ex:  # noqa
+                n += 1
+                fails.append(({"kind": "dtype", "op": "open", "mode": mode, "raw": sorted(set(tys.values()))[0],
+                               "scale_kinds": [], "zero_length": False, "big_endian_segment": be, "type_kind": "any",
+                               "raw_timestamps": rawts, "exception": type(ex).__name__},
+                              {"file": rec["file"], "ty": rec["ty"], "seed": seed, "hex": e.data.hex(),
+                               "raw_timestamps": rawts, "exception": "%s: %s" % (type(ex).__name__, ex)}))
+                continue
             for p, ty in tys.items():
                 if ty == "none":
                     continue
